@@ -464,6 +464,11 @@ fn network_cut(ds: &PartialDSet, d: usize, edge_mode: bool)
         .into_iter()
         .collect();
 
+    // Unmarked parts of the tile surface that cannot be reached from the sink
+    // face without crossing marked chambers are pockets behind the cut. They
+    // lie on the source side, so the cut curve must not run around them.
+    let marked = fill_pockets(ds, d, marked, &special);
+
     if let Some(&start) = marked.iter()
         .find(|&&e| !marked.contains(&ds.op(0, e).unwrap()))
     {
@@ -471,6 +476,39 @@ fn network_cut(ds: &PartialDSet, d: usize, edge_mode: bool)
     } else {
         None
     }
+}
+
+
+fn fill_pockets(
+    ds: &PartialDSet,
+    d: usize,
+    marked: HashSet<usize>,
+    special: &HashSet<usize>
+)
+    -> HashSet<usize>
+{
+    let mut outside: HashSet<usize> = special.iter().cloned()
+        .filter(|e| !marked.contains(e))
+        .collect();
+
+    if outside.is_empty() {
+        return marked;
+    }
+
+    let mut queue: Vec<usize> = outside.iter().cloned().collect();
+
+    while let Some(e) = queue.pop() {
+        for i in 0..=2 {
+            let ei = ds.op(i, e).unwrap();
+            if !marked.contains(&ei) && outside.insert(ei) {
+                queue.push(ei);
+            }
+        }
+    }
+
+    ds.orbit([0, 1, 2], d).into_iter()
+        .filter(|e| !outside.contains(e))
+        .collect()
 }
 
 
